@@ -14,17 +14,22 @@
    Caret.font_page (a parameter of the font operations)      x_cfp
    EditState.selection_mask (OverlayMask: size + rows)        x_mask
    Buffer::set_size (also rewrites sauce.buffer_size)        x_set_bsize
+   undo_operations::get_sauce_size / restore_sauce_size      sauce_size / sauce_restore   (ResizeBuffer and Crop record the size the SAUCE
+                                                                                       record carried and put it back on undo)
    EditState::set_mask_size                                   mask_resize
 
    undo_operations.rs                                        xuop
    --------------------------------------------------------  ------------------------------------------------------------
    every record of Model/EditModel.v                          XB o   (acts on xb only; ResizeBuffer is NOT lifted this way because
                                                                       Buffer::set_size touches the SAUCE record: XResizeBuffer)
-   ResizeBuffer                                               XResizeBuffer
+   ResizeBuffer (with the recorded SAUCE size)                XResizeBuffer
    SwitchPalettte (mem::swap)                                 XSwitchPalette
    SetSauceData (set_sauce(.., false) returns the old one)    XSetSauce
    SwitchToFontPage                                           XSwitchFontPage
    SetFont / AddFont / RemoveFont / ChangeFontSlot            XSetFont / XAddFont / XRemoveFont / XChangeFontSlot
+                                                              (SetFont.old : Option<BitFont> = the font of the slot that is written;
+                                                               AddFont / ChangeFontSlot.replaced_font = the font the target slot held,
+                                                               captured by redo, taken by undo)
    ReplaceFontUsage / SetIceMode / SwitchPalette              XReplaceFontUsage / XSetIceMode / XSwitchPaletteMode  (whole layer lists)
    MergeLayerDown / Paste / Crop                              XMergeDown / XPaste / XCrop
    SetSelectionMask / AddSelectionToMask / InverseSelection   XSetMask / XAddToMask / XInverse
@@ -90,6 +95,15 @@ Definition sauce_resize (d : option sauce) (w h : Z) : option sauce :=
   match d with Some sa => Some (mkSauce w h (sa_rest sa)) | None => None end.
 Definition x_set_bsize (s : xstate) (w h : Z) : xstate :=
   with_sauce (with_xb s (with_bsize (xb s) w h)) (sauce_resize (x_sauce s) w h).
+(* undo_operations.rs get_sauce_size: `get_sauce().as_ref().map(|sauce| sauce.buffer_size)` *)
+Definition sauce_size (s : xstate) : option (Z * Z) :=
+  match x_sauce s with Some sa => Some (sa_w sa, sa_h sa) | None => None end.
+(* undo_operations.rs restore_sauce_size: `if let Some(size) = size { if let Some(mut sauce) = set_sauce(None, false) { sauce.buffer_size = size; set_sauce(Some(sauce), false) } }` *)
+Definition sauce_restore (s : xstate) (sz : option (Z * Z)) : xstate :=
+  match sz with
+  | Some (w, h) => match x_sauce s with Some sa => with_sauce s (Some (mkSauce w h (sa_rest sa))) | None => s end
+  | None => s
+  end.
 (* EditState::set_mask_size *)
 Definition mask_resize (s : xstate) : xstate :=
   with_mask s (mkMask (bw (xb s)) (bh (xb s)) (m_rows (x_mask s))).
@@ -125,20 +139,20 @@ Definition mask_fill (m : mask) (r : rect) (v : bool) : mask :=
 (* ------------------------------------------------------------------ undo records *)
 Inductive xuop :=
 | XB (o : uop)
-| XResizeBuffer (ow oh nw nh : Z)
+| XResizeBuffer (ow oh nw nh : Z) (osz : option (Z * Z))
 | XSwitchPalette (pal : palette)
 | XSetSauce (d : option sauce)
 | XSwitchFontPage (old new : N)
-| XSetFont (slot old new : N)
-| XAddFont (old_page new_page font : N)
+| XSetFont (slot : N) (old : option N) (new : N)
+| XAddFont (old_page new_page font : N) (replaced : option N)
 | XRemoveFont (slot : N) (font : option N)
-| XChangeFontSlot (from to : N)
+| XChangeFontSlot (from to : N) (replaced : option N)
 | XReplaceFontUsage (ocp : N) (ol : list layer) (ncp : N) (nl : list layer)
 | XSetIceMode (om : N) (ol : list layer) (nm : N) (nl : list layer)
 | XSwitchPaletteMode (om : N) (opal : palette) (ol : list layer) (nm : N) (npal : palette) (nl : list layer)
 | XMergeDown (i : nat) (merged : option layer) (orig : option (list layer))
 | XPaste (cur : nat) (l : option layer)
-| XCrop (ow oh nw nh : Z) (ls : list layer)
+| XCrop (ow oh nw nh : Z) (osz : option (Z * Z)) (ls : list layer)
 | XSetMask (old new : mask)
 | XAddToMask (old : mask) (s : selection)
 | XInverse (s : option selection) (old new : mask)
@@ -175,22 +189,26 @@ Definition col_delete (col : option nat) (lines : list line) : list (option cell
   | Some c => (map (fun r => nth_error r c) lines, map (fun r => remove_at c r) lines)
   | None => (map (fun _ => None) lines, lines)
   end.
-(* DeleteColumn::undo: `for (i, ch) in deleted.iter().enumerate() { if let Some(ch) = ch { layer.lines[i].chars.insert(offset, *ch) } }` *)
+(* DeleteColumn::undo: `if lines.len() < deleted.len() { lines.resize(deleted.len(), Line::default()) }` (done by the caller: resize_to), then
+   `for (i, ch) in deleted.iter().enumerate() { if let Some(ch) = ch { let chars = &mut layer.lines[i].chars;
+      if chars.len() < offset { chars.resize(offset, invisible) } chars.insert(offset, *ch) } }`
+   Sites 43 (lines[i]) and 40 (Vec::insert) cannot fire after the two resizes (col_reinsert_ok in Proofs/DocRowColProofs.v); a negative column
+   (`as usize` = huge, site 44: resize beyond capacity) never meets a `Some`: its redo deletes nothing. *)
+Definition col_reinsert_row (col : option nat) (d : option cell) (row : line) : res line :=
+  match d with
+  | None => Ok row
+  | Some c => match col with
+              | Some n => vec_insert n c (resize_to row n invisible)
+              | None => Panic 44
+              end
+  end.
 Fixpoint col_reinsert (col : option nat) (deleted : list (option cell)) (lines : list line) : res (list line) :=
   match deleted with
   | [] => Ok lines
   | d :: dt =>
-    match d with
-    | None => match lines with
-              | [] => col_reinsert col dt []
-              | row :: lt => do r <- col_reinsert col dt lt; Ok (row :: r)
-              end
-    | Some c => match lines with
-                | [] => Panic 43                                                         (* layer.lines[i]: index out of range *)
-                | row :: lt =>
-                  do row' <- (match col with Some n => vec_insert n c row | None => Panic 40 end);
-                  do r <- col_reinsert col dt lt; Ok (row' :: r)
-                end
+    match lines with
+    | [] => match d with None => col_reinsert col dt [] | Some _ => Panic 43 end
+    | row :: lt => do row' <- col_reinsert_row col d row; do r <- col_reinsert col dt lt; Ok (row' :: r)
     end
   end.
 (* InsertColumn::redo: `if line.chars.len() >= offset { insert(offset, invisible) }`; undo: `if line.chars.len() > offset { remove(offset) }` *)
@@ -228,20 +246,26 @@ Definition mask_apply_sel (m : mask) (sl : selection) : mask :=
 Definition xop_undo (o : xuop) (s : xstate) : res (xuop * xstate) :=
   match o with
   | XB u => do '(u', b') <- op_undo u (xb s); Ok (XB u', with_xb s b')
-  | XResizeBuffer ow oh nw nh => Ok (o, mask_resize (x_set_bsize s ow oh))
+  | XResizeBuffer ow oh nw nh osz => Ok (o, mask_resize (sauce_restore (x_set_bsize s ow oh) osz))
   | XSwitchPalette p => Ok (XSwitchPalette (x_pal s), with_pal s p)
   | XSetSauce d => Ok (XSetSauce (x_sauce s), with_sauce s d)
   | XSwitchFontPage old new => Ok (o, with_cfp s old)
-  | XSetFont slot old new => Ok (o, with_fonts s (fset slot old (x_fonts s)))
-  | XAddFont op np f => Ok (o, with_cfp (with_fonts s (fdel np (x_fonts s))) op)
+  | XSetFont slot old new =>
+    Ok (o, with_fonts s (match old with Some f => fset slot f (x_fonts s) | None => fdel slot (x_fonts s) end))
+  | XAddFont op np f repl =>
+    (* remove_font(new_font_page); if let Some(font) = replaced_font.take() { set_font(new_font_page, font) } *)
+    Ok (XAddFont op np f None,
+        with_cfp (with_fonts s (match repl with Some r => fset np r (x_fonts s) | None => fdel np (x_fonts s) end)) op)
   | XRemoveFont slot font =>
     match font with
     | Some f => Ok (XRemoveFont slot None, with_fonts s (fset slot f (x_fonts s)))
     | None => Err 5
     end
-  | XChangeFontSlot from to =>
+  | XChangeFontSlot from to repl =>
     match fget to (x_fonts s) with
-    | Some f => Ok (o, with_fonts s (fset from f (fdel to (x_fonts s))))
+    | Some f =>
+      let fs1 := fset from f (fdel to (x_fonts s)) in
+      Ok (XChangeFontSlot from to None, with_fonts s (match repl with Some r => fset to r fs1 | None => fs1 end))
     | None => Err 6
     end
   | XReplaceFontUsage ocp ol ncp nl => Ok (o, with_cfp (with_xlayers s ol) ocp)
@@ -272,7 +296,7 @@ Definition xop_undo (o : xuop) (s : xstate) : res (xuop * xstate) :=
     | Some L => Ok (XPaste c (Some L), with_xlayers s (remove_at (S c) (xlayers s)))
     | None => Panic 2
     end
-  | XCrop ow oh nw nh ls => Ok (XCrop ow oh nw nh (xlayers s), with_xlayers (mask_resize (x_set_bsize s ow oh)) ls)
+  | XCrop ow oh nw nh osz ls => Ok (XCrop ow oh nw nh osz (xlayers s), with_xlayers (mask_resize (sauce_restore (x_set_bsize s ow oh) osz)) ls)
   | XSetMask old new => Ok (o, with_mask s old)
   | XAddToMask old sl => Ok (o, with_mask s old)
   | XInverse sl old new => Ok (o, with_mask (with_xb s (with_sel (xb s) sl)) old)
@@ -281,15 +305,19 @@ Definition xop_undo (o : xuop) (s : xstate) : res (xuop * xstate) :=
     match nth_error (xlayers s) i with
     | Some L =>
       do n <- as_index line;
-      do lines <- vec_insert n row (l_lines L);
+      (* `if lines.len() < line { lines.resize(line, Line::default()) }`, then Vec::insert (site 40 cannot fire any more) *)
+      do lines <- vec_insert n row (resize_to (l_lines L) n []);
       Ok (XDeleteRow i line [], with_xb s (upd_layer (xb s) i (fun _ => l_set_height (with_lines L lines) (l_h L + 1))))
     | None => Err 1
     end
   | XInsertRow i line _ =>
     match nth_error (xlayers s) i with
     | Some L =>
-      do n <- as_index line;
-      do '(row, lines) <- vec_remove n (l_lines L);
+      (* `if line < lines.len() { lines.remove(line) } else { Line::default() }` (a negative line is an index beyond every row) *)
+      let '(row, lines) := match col_index line with
+                           | Some n => match nth_error (l_lines L) n with Some r => (r, remove_at n (l_lines L)) | None => ([], l_lines L) end
+                           | None => ([], l_lines L)
+                           end in
       Ok (XInsertRow i line row, with_xb s (upd_layer (xb s) i (fun _ => l_set_height (with_lines L lines) (l_h L - 1))))
     | None => Err 1
     end
@@ -297,7 +325,7 @@ Definition xop_undo (o : xuop) (s : xstate) : res (xuop * xstate) :=
     match nth_error (xlayers s) i with
     | Some L =>
       let n := col_index col in
-      do lines <- col_reinsert n deleted (l_lines L);
+      do lines <- col_reinsert n deleted (resize_to (l_lines L) (length deleted) []);
       Ok (o, with_xb s (upd_layer (xb s) i (fun _ => l_set_width (with_lines L lines) (l_w L + 1))))
     | None => Err 1
     end
@@ -320,20 +348,25 @@ Definition xop_undo (o : xuop) (s : xstate) : res (xuop * xstate) :=
 Definition xop_redo (o : xuop) (s : xstate) : res (xuop * xstate) :=
   match o with
   | XB u => do '(u', b') <- op_redo u (xb s); Ok (XB u', with_xb s b')
-  | XResizeBuffer ow oh nw nh => Ok (o, mask_resize (x_set_bsize s nw nh))
+  | XResizeBuffer ow oh nw nh osz => Ok (o, mask_resize (x_set_bsize s nw nh))
   | XSwitchPalette p => Ok (XSwitchPalette (x_pal s), with_pal s p)
   | XSetSauce d => Ok (XSetSauce (x_sauce s), with_sauce s d)
   | XSwitchFontPage old new => Ok (o, with_cfp s new)
   | XSetFont slot old new => Ok (o, with_fonts s (fset slot new (x_fonts s)))
-  | XAddFont op np f => Ok (o, with_cfp (with_fonts s (fset np f (x_fonts s))) np)
+  | XAddFont op np f _ =>
+    (* replaced_font = remove_font(new_font_page); set_font(new_font_page, font) *)
+    Ok (XAddFont op np f (fget np (x_fonts s)), with_cfp (with_fonts s (fset np f (x_fonts s))) np)
   | XRemoveFont slot _ =>
     match fget slot (x_fonts s) with
     | Some f => Ok (XRemoveFont slot (Some f), with_fonts s (fdel slot (x_fonts s)))
     | None => Err 6
     end
-  | XChangeFontSlot from to =>
+  | XChangeFontSlot from to _ =>
     match fget from (x_fonts s) with
-    | Some f => Ok (o, with_fonts s (fset to f (fdel from (x_fonts s))))
+    | Some f =>
+      (* replaced_font = remove_font(to), AFTER the source slot was emptied *)
+      let fs1 := fdel from (x_fonts s) in
+      Ok (XChangeFontSlot from to (fget to fs1), with_fonts s (fset to f fs1))
     | None => Err 6
     end
   | XReplaceFontUsage ocp ol ncp nl => Ok (o, with_cfp (with_xlayers s nl) ncp)
@@ -359,7 +392,7 @@ Definition xop_redo (o : xuop) (s : xstate) : res (xuop * xstate) :=
     | Some L => if (S c <=? length (xlayers s))%nat then Ok (XPaste c None, with_xlayers s (insert_at (S c) L (xlayers s))) else Panic 3
     | None => Err 3
     end
-  | XCrop ow oh nw nh ls => Ok (XCrop ow oh nw nh (xlayers s), with_xlayers (mask_resize (x_set_bsize s nw nh)) ls)
+  | XCrop ow oh nw nh osz ls => Ok (XCrop ow oh nw nh osz (xlayers s), with_xlayers (mask_resize (x_set_bsize s nw nh)) ls)
   | XSetMask old new => Ok (o, with_mask s new)
   | XAddToMask old sl => Ok (o, with_mask s (mask_apply_sel (x_mask s) sl))
   | XInverse sl old new => Ok (o, with_mask (with_xb s (with_sel (xb s) None)) new)
